@@ -95,8 +95,13 @@ class JsonRecordPacker:
                 del obj["_recorddescriptor"]
                 del obj["_type"]
                 for field_type, field_name in record_descriptor.get_field_tuples():
+                    value = obj.get(field_name)
+                    if value is None:
+                        continue
                     if field_type == "bytes":
-                        obj[field_name] = base64.b64decode(obj[field_name])
+                        obj[field_name] = base64.b64decode(value)
+                    elif field_type == "bytes[]":
+                        obj[field_name] = [base64.b64decode(item) for item in value]
                 result = record_descriptor.recordType(**obj)
                 return result
             if _type == "recorddescriptor":
